@@ -22,8 +22,8 @@ def arms():
                     continue
                 if st == "push" and len(s) > 2:
                     continue
-                if st == "attrs" and m == 0:
-                    continue
+                if st == "attrs" and (m == 0 or s[m.bit_length() - 1] != "r"):
+                    continue   # the attrs step addresses the visible entry through Scope::Global: it must be in a regular context
                 if st == "env" and m == 0:
                     continue
                 out.append(("c16_%s_%s_m%d" % (st, s, m), st, kinds, m))
